@@ -83,6 +83,55 @@ func checkC16(c *Ctx) {
 		ra2.Check(n >= 2, f.Name(), "initialises a missing record", f.Body.Pos(), "conditions and Attrs are applied", name+" no longer initialises a missing record from conditions and Attrs")
 	}
 
+	// "return the FIRST match": both lookups fetch one row ordered by the primary key, like First does
+	{
+		limitM, orderM, findM := p.Method(dbT, "Limit"), p.Method(dbT, "Order"), p.Method(dbT, "Find")
+		pkConst := p.Lookup(pkgClause, "PrimaryKey")
+		for _, name := range []string{"FirstOrInit", "FirstOrCreate"} {
+			f := p.MethodDecl(pkgGorm, "DB", name)
+			info := f.Pkg.TypesInfo
+			nLook := 0
+			for _, call := range callsIn(f) {
+				if fn, _ := typeutil.Callee(info, call).(*types.Func); fn != findM {
+					continue
+				}
+				nLook++
+				limited, ordered := false, false
+				for _, nd := range chainNodes(f, call) {
+					ast.Inspect(nd, func(x ast.Node) bool {
+						ce, ok := x.(*ast.CallExpr)
+						if !ok {
+							return true
+						}
+						switch fn, _ := typeutil.Callee(info, ce).(*types.Func); fn {
+						case limitM:
+							if len(ce.Args) == 1 {
+								if tv, ok := info.Types[ce.Args[0]]; ok && tv.Value != nil && tv.Value.String() == "1" {
+									limited = true
+								}
+							}
+						case orderM:
+							ast.Inspect(ce, func(y ast.Node) bool {
+								if se, ok := y.(*ast.SelectorExpr); ok && info.Uses[se.Sel] == pkConst {
+									ordered = true
+								}
+								if id, ok := y.(*ast.Ident); ok && info.Uses[id] == pkConst {
+									ordered = true
+								}
+								return true
+							})
+						}
+						return true
+					})
+				}
+				ra2.Check(limited && ordered, f.Name(), "lookup returns the first match", call.Pos(), "Limit(1) ordered by the primary key", name+" looks the record up without "+map[bool]string{true: "ordering by the primary key", false: "Limit(1)"}[limited]+": with several matching rows it returns whichever the database yields first, not the first match (and differs from First / its sibling on the same chain)")
+			}
+			if nLook == 0 {
+				ra2.Bad(f.Name(), "lookup", f.Body.Pos(), name+" no longer looks the record up with Find")
+			}
+		}
+	}
+
 	// ---- C16.init-readonly ----
 	ri := c.Rule("C16.init-readonly", "REACH(FirstOrInit -> pipeline accessors) within package gorm is {Query}; query executors issue only query-type driver calls", 3)
 	cbT := p.Named(pkgGorm, "callbacks")
